@@ -268,8 +268,47 @@ pub fn u2f_register_new(inp: &Value) -> R<Value> {
               "cert": bytes(&r.attestation_certificate), "sig": bytes(&r.signature)}))
 }
 
+/// Default / builder constructors and small conversion helpers (behaviour beyond the listed
+/// properties; the specification states it in Model_defaults)
+pub fn defaults(_inp: &Value) -> R<Value> {
+    use ctap_types::webauthn::*;
+    let gi = get_info::Response::default();
+    let built = get_info::ResponseBuilder { versions: ctap_types::Vec::new(), aaguid: ctap_types::Bytes::from_slice(&[7u8; 16]).unwrap() }.build();
+    let mc = make_credential::ResponseBuilder { fmt: ctap2::AttestationStatementFormat::None, auth_data: ctap_types::Bytes::from_slice(&[1, 2]).unwrap() }.build();
+    let mut ser = |v: &dyn Fn(&mut [u8]) -> Result<usize, ()>| -> Vec<u8> { let mut b = vec![0u8; 4096]; let n = v(&mut b).unwrap_or(0); b.truncate(n); b };
+    let mc_bytes = ser(&|b| ctap_types::serde::cbor_serialize(&mc, b).map(|s| s.len()).map_err(|_| ()));
+    let user = PublicKeyCredentialUserEntity::from(ctap_types::Bytes::from_slice(&[9, 9, 9]).unwrap());
+    let p: PublicKeyCredentialParameters = KnownPublicKeyCredentialParameters { alg: -8 }.into();
+    let p2 = PublicKeyCredentialParameters::public_key_with_alg(-7);
+    let mut out_set = get_assertion::ExtensionsOutput::default();
+    let unset_is_set = out_set.is_set();
+    out_set.hmac_secret = Some(ctap_types::Bytes::new());
+    let hmac_is_set = out_set.is_set();
+    Ok(json!({
+        "getInfoDefault": proj::get_info(&gi),
+        "getInfoBuilt": proj::get_info(&built),
+        "ctapOptionsDefault": proj::ctap_options(&get_info::CtapOptions::default()),
+        "mcBuiltBytes": bytes(&mc_bytes),
+        "userFrom": proj::user(&user),
+        "paramFromKnown": proj::param(&p),
+        "paramWithAlg": proj::param(&p2),
+        "cpDefaultBytes": bytes(&ser(&|b| ctap_types::serde::cbor_serialize(&client_pin::Response::default(), b).map(|s| s.len()).map_err(|_| ()))),
+        "cmDefaultBytes": bytes(&ser(&|b| ctap_types::serde::cbor_serialize(&credential_management::Response::default(), b).map(|s| s.len()).map_err(|_| ()))),
+        "mcExtDefault": proj::mc_ext(&make_credential::Extensions::default()),
+        "gaExtInDefault": proj::ga_ext_in(&get_assertion::ExtensionsInput::default()),
+        "extOutUnsetIsSet": unset_is_set,
+        "extOutHmacIsSet": hmac_is_set,
+        "credProtectDefault": credential_management::CredentialProtectionPolicy::default() as u8,
+        "knownAlgs": Value::Array(KNOWN_ALGS.iter().map(|a| json!(*a)).collect()),
+        "u2fVersion": bytes(&<crate::mock::FullAuthProbe as ctap1::Authenticator>::version()),
+        "maxMessage": ctap_types::sizes::THEORETICAL_MAX_MESSAGE_SIZE,
+        "authDataLen": ctap_types::sizes::AUTHENTICATOR_DATA_LENGTH,
+    }))
+}
+
 pub fn run(op: &str, inp: &Value) -> R<Value> {
     match op {
+        "defaults" => defaults(inp),
         "optable" => optable(inp),
         "enum_str" => enum_str(inp),
         "enum_u8" => enum_u8(inp),
